@@ -15,3 +15,6 @@ CONSTANTS
  BottomUp = FALSE
  Dev_UidSubtreeUnchecked = FALSE
  Dev_TopKeepsParent = FALSE
+ UidKey <- JoinDash
+ KeyForms = {"id"}
+ Dev_KeyUnchecked = FALSE
